@@ -504,6 +504,53 @@ def rule_r13_map_err(text, enabled, applied):
         applied.append(f'R13(map_err#{n})')
 
 
+def rule_r14_str_slice(text, names, applied):
+    """`&S[A..B]` -> `str_slice(S, A, B)`, `&S[A..]` -> `str_slice_from(S, A)` for the listed `&str` variables S:
+    names the std slicing operation (core::str `Index<Range<usize>>` / `Index<RangeFrom<usize>>`) so that the ASSUMED std
+    contract of the prelude (same panics-free precondition as vstd's, plus 'the bytes of the result are bytes A..B of S')
+    is attached to it; the prelude wrappers' bodies are exactly `&s[a..b]` / `&s[a..]`"""
+    if not names:
+        return text
+    n = 0
+    while True:
+        st = _lex(text)
+        hit = None
+        for i, t in enumerate(st):
+            if (t.kind == 'punct' and t.text == '&' and i + 2 < len(st) and st[i + 1].kind == 'ident' and st[i + 1].text in names
+                    and st[i + 2].text == '['):
+                close = match_forward(st, i + 2)
+                dd = [k for k in range(i + 3, close) if st[k].text == '..' and _depth0(st, i + 3, k)]
+                if len(dd) == 1 and dd[0] > i + 3:
+                    hit = (i, close, dd[0])
+                    break
+        if hit is None:
+            if n == 0:
+                raise Undecided('R14: no `&S[A..B]` found for ' + ','.join(names))
+            return text
+        i, close, d = hit
+        n += 1
+        base = st[i + 1].text
+        a = text[st[i + 3].start:st[d - 1].end]
+        if d + 1 == close:
+            new = f'str_slice_from({base}, {a})'
+        else:
+            b = text[st[d + 1].start:st[close - 1].end]
+            new = f'str_slice({base}, {a}, {b})'
+        text = text[:st[i].start] + new + text[st[close].end:]
+        applied.append(f'R14(str-slice#{n})')
+
+
+def _depth0(st, lo, k):
+    d = 0
+    for j in range(lo, k):
+        if st[j].kind == 'punct':
+            if st[j].text in OPEN:
+                d += 1
+            elif st[j].text in CLOSE:
+                d -= 1
+    return d == 0
+
+
 def rule_r11_unshadow(text, unshadows, applied):
     """alpha-renaming: a local `let [mut] X = X;` that shadows parameter X is renamed (the local and every later use),
     so that contracts can mention the parameter (Verus relates recursive calls to the measure at function entry)"""
@@ -937,7 +984,7 @@ def new_fn_spec(attrs):
         'id': attrs['id'], 'file': attrs['file'], 'name': attrs['name'], 'container': attrs.get('in'),
         'props': [p for p in attrs.get('props', '').split(',') if p],
         'ret': None, 'requires': [], 'ensures': [],  # ensures: list of {'label','props','lines'}
-        'loops': {}, 'folds': {}, 'closures': {}, 'ats': [], 'hoist': [], 'lettypes': {}, 'breaktypes': {}, 'desugar_for': [], 'adapters': {}, 'mapcollects': {}, 'tupleclones': [], 'extendmaps': False, 'lifts': [], 'unshadows': [], 'bindargs': [], 'maperr': False, 'container_extra': [], 'attrs': [],
+        'loops': {}, 'folds': {}, 'closures': {}, 'ats': [], 'hoist': [], 'lettypes': {}, 'breaktypes': {}, 'desugar_for': [], 'adapters': {}, 'mapcollects': {}, 'tupleclones': [], 'extendmaps': False, 'lifts': [], 'unshadows': [], 'bindargs': [], 'maperr': False, 'strslice': [], 'container_extra': [], 'attrs': [],
         'recommends': [], 'decreases': [], 'stub_only': attrs.get('stub') == 'only', 'trusted_reason': attrs.get('trusted'),
     }
 
@@ -1038,6 +1085,9 @@ def parse_spec_file(path):
             sect = None
         elif kw == 'maperr':
             cur['maperr'] = True
+            sect = None
+        elif kw == 'strslice':
+            cur['strslice'] += pos
             sect = None
         elif kw == 'bindargs':
             # //@bindargs "recv.f(" K vars="name1: Type1; name2: Type2"
@@ -1186,6 +1236,7 @@ class Generator:
             text = rule_r11_unshadow(text, spec['unshadows'], applied)
             text = rule_r12_bind_args(text, spec['bindargs'], applied)
             text = rule_r13_map_err(text, spec['maperr'], applied)
+            text = rule_r14_str_slice(text, spec['strslice'], applied)
             text = rule_r10_lift_closure(text, spec['lifts'], applied)
             text = rule_r2_fold(text, spec['folds'], applied)
             text = rule_r7_adapters(text, spec['adapters'], applied)
